@@ -39,6 +39,7 @@ CONSTANTS
   CloseErr,    \* TRUE: the sockets' Close() reports an error; Conn.Close then calls the pool's HandleError
                \* on the closing goroutine (re-entrance: HandleError takes pool.mu)
   Defect_LateCloseUnderLock, \* TRUE: connect() closes a late arrival while it still holds pool.mu
+  Defect_NoJoin, \* TRUE: connectMany returns at the first failing connect() instead of waiting for every one
   Mut          \* "none", or a protocol mutation (model self-test only)
 
 Fillers == Triggers \cup Spawned
@@ -136,8 +137,11 @@ Finish(c, failed, cpc1) ==
        ELSE /\ fpc' = [fpc EXCEPT ![f] = "end"]
             /\ cpc' = cpc1
             /\ UNCHANGED <<frem, ferr, cown, nextc>>
-  ELSE /\ ferr' = [ferr EXCEPT ![f] = @ \/ failed]
-       /\ fpc' = [fpc EXCEPT ![f] = IF \A d \in ConnIds : cown[d] = f => cpc1[d] \in {"unused", "done"}
+  ELSE \* connectMany is a join: fillingStopped runs only when every connect() of the round has returned
+       /\ ferr' = [ferr EXCEPT ![f] = @ \/ failed]
+       /\ fpc' = [fpc EXCEPT ![f] = IF fpc[f] # "rest" THEN @        \* (a straggler of a round that was left early)
+                                     ELSE IF (Defect_NoJoin /\ failed)
+                                             \/ \A d \in ConnIds : cown[d] = f => cpc1[d] \in {"unused", "done"}
                                      THEN "end" ELSE @]
        /\ cpc' = cpc1
        /\ UNCHANGED <<frem, cown, nextc>>
@@ -313,6 +317,9 @@ NoLeakAfterClose == (closed /\ Quiet /\ \A k \in Closers : kpc[k] # "closing") =
 \* a pool connection is alive, or its error callback is still to come
 PoolConnsAlive == conns \subseteq open \cup pendHE
 
+\* fillingStopped is a join: while a connect() of a fill is in flight the pool says "filling"
+Connecting == {c \in ConnIds : cpc[c] \in {"dial", "connected"}}
+FillJoin == Connecting # {} => filling
 \* no pool method waits for the lock it holds (closing a connection may call back into HandleError)
 NoSelfDeadlock == ~lockDead
 
